@@ -252,3 +252,150 @@ Proof. destruct l; [congruence|reflexivity]. Qed.
 
 Lemma obind_some {A} (x : option A) : obind x (fun a => Some a) = x.
 Proof. destruct x; reflexivity. Qed.
+
+(* ================= facts used by the top level (sortLogNondominated) ================= *)
+From DV Require Import Proofs.C04_NDSort Proofs.C04_LogSweep.
+
+Lemma fold_left_inv {A S} (P : S -> Prop) (f : S -> A -> S) l : (forall s x, P s -> P (f s x)) -> forall s, P s -> P (fold_left f l s).
+Proof. intro H. induction l; intros; cbn; auto. Qed.
+
+Lemma fold_left_ext {A S} (f g : S -> A -> S) l : (forall s x, f s x = g s x) -> forall s, fold_left f l s = fold_left g l s.
+Proof. intros H. induction l; intros; cbn; [reflexivity|]. now rewrite H. Qed.
+
+(* a loop over enumerate(l) that ignores the index *)
+Lemma fold_left_enum {A S} (f : S -> Z * A -> S) (g : S -> A -> S) :
+  (forall s i x, f s (i, x) = g s x) -> forall l st s, fold_left f (enum_from st l) s = fold_left g l s.
+Proof. intro H. induction l as [|x l IH]; intros; cbn; [reflexivity|]. now rewrite H, IH. Qed.
+
+(* ---- ranks never become negative ---- *)
+Definition nonneg (fr : fmap) : Prop := forall f, 0 <= fget fr f.
+
+Lemma nonneg_fbump fr f g : nonneg fr -> nonneg (fbump fr f g).
+Proof.
+  intros H k. destruct (key_dec f k) as [->|N].
+  - rewrite fget_fbump_same. specialize (H k). lia.
+  - rewrite fget_fbump_other by assumption. apply H.
+Qed.
+
+Lemma nonneg_sweep_rank st fst_ fr fit : nonneg fr -> nonneg (snd (sweep_rank st fst_ fr fit)).
+Proof. intro H. unfold sweep_rank. cbv zeta. destruct (_ && _); cbn [snd]; [apply nonneg_fbump|]; assumption. Qed.
+
+Lemma nonneg_sweepA fs fr : nonneg fr -> nonneg (sweepA fs fr).
+Proof.
+  intro H. unfold sweepA. destruct fs as [|f0 r]; [assumption|].
+  apply (fold_left_inv (fun s => nonneg (sw_front s))); [|assumption].
+  intros s x Hs. unfold sweepA_step.
+  pose proof (nonneg_sweep_rank (sw_stairs s) (sw_fstairs s) (sw_front s) x Hs) as N.
+  destruct (sweep_rank _ _ _ _) as [idx fr']. cbn [snd] in N.
+  destruct (find_index _ _); cbn [sw_front]; assumption.
+Qed.
+
+Lemma nonneg_sweepB best worst fr : nonneg fr -> nonneg (sweepB best worst fr).
+Proof.
+  intro H. unfold sweepB.
+  apply (fold_left_inv (fun acc : list wvals * sweep => nonneg (sw_front (snd acc)))); [|assumption].
+  intros [rest s] h Hs. cbn [snd] in Hs. unfold sweepB_step.
+  destruct (sweepB_consume _ _ _ _ _) as [[rest' st] fst_].
+  pose proof (nonneg_sweep_rank st fst_ (sw_front s) h Hs) as N.
+  destruct (sweep_rank _ _ _ _) as [idx fr']. cbn [snd sw_front] in *. assumption.
+Qed.
+
+Lemma nonneg_helperB_direct best worst obj fr : nonneg fr -> nonneg (helperB_direct best worst obj fr).
+Proof.
+  intro H. unfold helperB_direct. apply fold_left_inv; [|assumption].
+  intros s hi Hs. apply fold_left_inv; [|assumption].
+  intros s' li Hs'. destruct (weakly_dominated_upto _ _ _); [apply nonneg_fbump|]; assumption.
+Qed.
+
+Lemma nonneg_helperB fuel : forall best worst obj fr fr', nonneg fr -> helperB fuel best worst obj fr = Some fr' -> nonneg fr'.
+Proof.
+  induction fuel as [|fu IH]; intros best worst obj fr fr' H E; [discriminate|].
+  cbn [helperB] in E. cbv zeta in E.
+  destruct (_ || _); [inversion E; subst; assumption|].
+  destruct (_ || _); [inversion E; subst; apply nonneg_helperB_direct; assumption|].
+  destruct (obj =? 1); [inversion E; subst; apply nonneg_sweepB; assumption|].
+  destruct (_ >=? _); [eapply IH; eassumption|].
+  destruct (_ >=? _); [|inversion E; subst; assumption].
+  destruct (splitB best worst obj) as [[[b1 b2] w1] w2].
+  destruct (helperB fu b1 w1 obj fr) as [f1|] eqn:E1; [|discriminate].
+  destruct (helperB fu b1 w2 (obj - 1) f1) as [f2|] eqn:E2; [|discriminate].
+  eapply IH; [|exact E]. eapply IH; [|exact E2]. eapply IH; [|exact E1]. assumption.
+Qed.
+
+Lemma nonneg_helperA fuel : forall fs obj fr fr', nonneg fr -> helperA fuel fs obj fr = Some fr' -> nonneg fr'.
+Proof.
+  induction fuel as [|fu IH]; intros fs obj fr fr' H E; [discriminate|].
+  cbn [helperA] in E.
+  destruct (zlen fs <? 2); [inversion E; subst; assumption|].
+  destruct (zlen fs =? 2).
+  { destruct fs as [|s1 [|s2 [|s3 r]]]; try discriminate.
+    destruct (is_dominated _ _); inversion E; subst; [apply nonneg_fbump|]; assumption. }
+  destruct (obj =? 1); [inversion E; subst; apply nonneg_sweepA; assumption|].
+  destruct (_ =? 1); [eapply IH; eassumption|].
+  destruct (splitA fs obj) as [b w].
+  destruct (helperA fu b obj fr) as [f1|] eqn:E1; [|discriminate].
+  destruct (helperB fu b w (obj - 1) f1) as [f2|] eqn:E2; [|discriminate].
+  eapply IH; [|exact E]. eapply nonneg_helperB; [|exact E2]. eapply IH; [|exact E1]. assumption.
+Qed.
+
+Lemma nonneg_const l : nonneg (map (fun f : wvals => (f, 0)) l).
+Proof.
+  intro k. unfold fget. induction l as [|a l IH]; cbn; [lia|]. destruct (key_eqb a k); [lia|assumption].
+Qed.
+
+(* ---- dict.fromkeys on distinct keys ---- *)
+Lemma kset_fresh {V} (m : kmap V) k v : ~ In k (kkeys m) -> kset m k v = m ++ [(k, v)].
+Proof.
+  induction m as [|[k' v'] m IH]; intro N; cbn; [reflexivity|].
+  cbn in N. destruct (key_eqb k' k) eqn:E.
+  - apply key_eqb_eq in E. tauto.
+  - rewrite IH by tauto. reflexivity.
+Qed.
+
+Lemma fromkeys_nodup l v : NoDup l -> fromkeys l v = map (fun f => (f, v)) l.
+Proof.
+  unfold fromkeys. intro ND.
+  assert (G : forall acc, (forall x, In x l -> ~ In x (kkeys acc)) ->
+              fold_left (fun m k => kset m k v) l acc = acc ++ map (fun f => (f, v)) l).
+  { induction ND as [|x l Hx ND IH]; intros acc Hacc; cbn; [now rewrite app_nil_r|].
+    rewrite kset_fresh by (apply Hacc; left; reflexivity).
+    rewrite IH; [now rewrite <- app_assoc|].
+    intros y Hy. unfold kkeys. rewrite map_app, in_app_iff. cbn. intros [H|[H|[]]].
+    - apply (Hacc y); [right; assumption|exact H].
+    - subst. contradiction. }
+  apply (G []). intros x _ [].
+Qed.
+
+(* ---- l[i].extend(x) for a non-negative index ---- *)
+Lemma app_at_out {A} (l : list (list A)) i x : (length l <= i)%nat -> app_at l i x = l.
+Proof. revert i. induction l as [|y l IH]; intros [|i] H; cbn in *; try reflexivity; try lia. f_equal. apply IH. lia. Qed.
+
+Lemma py_extend_at_nonneg {A} (l : list (list A)) i x : 0 <= i -> py_extend_at l i x = app_at l (Z.to_nat i) x.
+Proof.
+  intro H. unfold py_extend_at. destruct (i <? 0) eqn:E; [zb2p; lia|]. destruct (i <? 0) eqn:E1; [discriminate|]. cbn [orb].
+  destruct (zlen l <=? i) eqn:E2; [|reflexivity]. zb2p. symmetry. apply app_at_out. unfold zlen in *. lia.
+Qed.
+
+Lemma py_nth_0_nth {A} (d : A) l : py_nth d l 0 = nth 0 l d.
+Proof. destruct l; reflexivity. Qed.
+
+(* ---- the trimming loop: stop after the first front at which the running count reaches k ---- *)
+Lemma zlen_app1 {A} (l : list A) x : zlen (l ++ [x]) = zlen l + 1.
+Proof. unfold zlen. rewrite app_length. cbn. lia. Qed.
+
+Lemma for_loop_log_cut {A} k (pf : list (list A)) start off (body : Z * list A -> Z -> ctl log_result Z) (mk : list (list A) -> log_result) :
+  start + off = 1 ->
+  (forall i F c, body (i, F) c = if c + zlen F >=? k then Ret (mk (slice_to pf (i + off))) else Nxt (c + zlen F)) ->
+  forall suf pre c, pf = pre ++ suf ->
+    match for_loop (enum_from (start + zlen pre) suf) body c with inl r => Some r | inr _ => Some (mk pf) end
+    = Some (mk (pre ++ log_cut k c suf)).
+Proof.
+  intros Hso Hb. induction suf as [|F r IH]; intros pre c E.
+  - cbn. rewrite app_nil_r in *. now subst.
+  - cbn [enum_from]. rewrite for_loop_cons, Hb. cbn [log_cut]. destruct (c + zlen F >=? k).
+    + f_equal. f_equal. rewrite slice_to_firstn by (pose proof (zlen_nonneg pre); lia).
+      replace (Z.to_nat (start + zlen pre + off)) with (length pre + 1)%nat by (unfold zlen; lia).
+      subst pf. rewrite firstn_app_2. reflexivity.
+    + specialize (IH (pre ++ [F]) (c + zlen F)). rewrite zlen_app1, <- app_assoc in IH. cbn [app] in IH.
+      replace (start + zlen pre + 1) with (start + (zlen pre + 1)) by lia. rewrite IH by assumption. now rewrite <- app_assoc.
+Qed.
